@@ -540,3 +540,24 @@ def set_(*a):
 
 def dict_(*a, **kw):
   return SymDict(*a, **kw)
+
+
+def range_(*a):
+  """range() with a symbolic bound iterates lazily: one solver-decided 'continue?' per iteration instead of
+  concretising the bound up front (loops over untrusted counts usually stop early on truncated data)"""
+  if not any(isinstance(x, (SymInt, SymBool)) for x in a): return range(*a)
+  if len(a) == 1: start, stop, step = 0, a[0], 1
+  elif len(a) == 2: start, stop, step = a[0], a[1], 1
+  else: start, stop, step = a
+  if isinstance(step, (SymInt, SymBool)):
+    step = int(step)
+  if step == 0: raise ValueError("range() arg 3 must not be zero")
+  def gen():
+    i = start
+    n = 0
+    while bool(i < stop) if step > 0 else bool(i > stop):
+      yield i
+      i = i + step
+      n += 1
+      if n > 4096: raise Inconclusive("symbolic range longer than 4096 iterations")
+  return gen()
